@@ -632,7 +632,7 @@ def run_locate(store, req, fs, off, mx, version):
 GATE = {'on': False}
 
 
-def case_to_coq(store_name, req, fs, off, mx, obs, version=(1, 2)):
+def case_to_coq(store_name, req, fs, off, mx, obs, version=(1, 2), pols_name='pols_'):
     ids = None
     if obs['ids'] is not None:
         ids = []
@@ -640,8 +640,8 @@ def case_to_coq(store_name, req, fs, off, mx, obs, version=(1, 2)):
             if str(int(s)) != s:
                 raise RuntimeError('non-canonical identifier in a Locate response: %r' % s)
             ids.append(int(s))
-    return '(mkCase (%s, %s) pols_ (mkReq %s %s) %s %s %s %s %s)' % (
-        cp.z(version[0]), cp.z(version[1]), cp.string(req[0]), cp.option(req[1], lambda g: cp.lst(g, cp.string)), store_name,
+    return '(mkCase (%s, %s) %s (mkReq %s %s) %s %s %s %s %s)' % (
+        cp.z(version[0]), cp.z(version[1]), pols_name, cp.string(req[0]), cp.option(req[1], lambda g: cp.lst(g, cp.string)), store_name,
         cp.lst(fs, filter_to_coq), cp.option(off, cp.z), cp.option(mx, cp.z), cp.option(ids, lambda l: cp.lst(l, cp.z)))
 
 
@@ -718,6 +718,8 @@ def version_has(version, f):
 def witness(store, req, fs, off, mx, version, obs, extra=None):
     w = {'plan': store.plan, 'requester': list(req), 'filters': fs, 'offset': off, 'maximum': mx, 'version': list(version),
          'observed': obs, 'store': store.objs if len(store.objs) <= 40 else '%d objects (rebuild from the plan)' % len(store.objs)}
+    for k, v in (getattr(store, 'extra', None) or {}).items():      # e.g. the policy history of a live-reload run, as it is NOW
+        w[k] = list(v) if isinstance(v, list) else v
     if extra:
         w.update(extra)
     return w
@@ -945,6 +947,132 @@ def run_large(ctx, rng, idx, n, pols, cases, meta, defs):
         store.close()
 
 
+# ---------------------------------------------------------------------------------------------- live policy reload
+def edit_documents(rng, docs, original, step):
+    """The next content of the policy file: replace / remove / re-add policy names, change Locate permissions."""
+    docs = copy.deepcopy(docs)
+
+    def set_locate(doc, perm):
+        for sec in [doc.get('preset')] + list((doc.get('groups') or {}).values()):
+            for ops in (sec or {}).values():
+                if perm is None:
+                    ops.pop('LOCATE', None)
+                else:
+                    ops['LOCATE'] = perm
+    if step == 1:        # ALLOW_ALL edited to ALLOW_OWNER, group sections tightened
+        set_locate(docs['open'], 'ALLOW_OWNER')
+        set_locate(docs['team'], 'ALLOW_OWNER')
+    elif step == 2:      # policies removed
+        docs.pop('team', None)
+        docs.pop('mixed', None)
+        set_locate(docs['closed'], 'ALLOW_ALL')
+    elif step == 3:      # re-added with other content
+        docs['team'] = copy.deepcopy(original['open'])
+        docs['mixed'] = copy.deepcopy(original['mixedrev'])
+        docs['mixedrev'] = copy.deepcopy(original['mixed'])
+    elif step == 4:      # back to the first content
+        docs = copy.deepcopy(original)
+    else:
+        for name in rng.sample(sorted(original), 3):
+            r = rng.random()
+            if r < 0.25:
+                docs.pop(name, None)
+            elif r < 0.5:
+                docs[name] = copy.deepcopy(original[rng.choice(sorted(original))])
+            else:
+                docs.setdefault(name, copy.deepcopy(original[name]))
+                set_locate(docs[name], rng.choice(['ALLOW_ALL', 'ALLOW_OWNER', 'DISALLOW_ALL', None]))
+    return docs
+
+
+class LiveStore:
+    """ONE engine whose policy store is the dict a PolicyDirectoryMonitor maintains from a policy directory; the
+    policy file is rewritten between Locates and picked up by scan_policies(), as in a server with live policies."""
+    def __init__(self, ctx, plan, tag):
+        from kmip.services.server import monitor as smon
+        self.dir = Path(ctx.work) / ('live_policies_%s' % tag)
+        if self.dir.exists():
+            for f in self.dir.iterdir():
+                f.unlink()
+        self.dir.mkdir(parents=True, exist_ok=True)
+        self.file = self.dir / 'policies.json'
+        base = copy.deepcopy(kdrv.core_policy.policies)
+        self.policy_store = {'default': base['default'], 'public': base['public']}     # shared with the engine
+        self.builtin_docs = {'default': _doc_of_builtin(base['default']), 'public': _doc_of_builtin(base['public'])}
+        import signal
+        saved = (signal.getsignal(signal.SIGINT), signal.getsignal(signal.SIGTERM))
+        self.monitor = smon.PolicyDirectoryMonitor(str(self.dir), self.policy_store, live_monitoring=False)
+        signal.signal(signal.SIGINT, saved[0])          # the monitor installs its own handlers; keep the harness's
+        signal.signal(signal.SIGTERM, saved[1])
+        self.monitor.logger.setLevel(100)
+        self.mtime = 1700000000
+        self.history = []
+        self.prior = []
+        docs = policy_documents()
+        self.load(docs)
+        self.store = Store(ctx, plan, Pols(self.policy_store, self.in_force(), str(self.file)))
+        self.store.extra = {'policy_history': self.history, 'prior_requests': self.prior}
+
+    def in_force(self):
+        d = dict(self.builtin_docs)
+        d.update(json.loads(self.file.read_text()))          # the specification reads the file as it is now
+        return d
+
+    def load(self, docs):
+        self.file.write_text(json.dumps(docs, indent=1))
+        self.mtime += 10
+        import os
+        os.utime(str(self.file), (self.mtime, self.mtime))
+        self.monitor.scan_policies()
+        self.history.append(docs)
+        if hasattr(self, 'store'):
+            self.store.pols = self.in_force()
+
+    def close(self):
+        self.store.close()
+
+
+LIVE_REQUESTERS = [('alice', None), ('bob', None), ('carol', ['g1']), ('bob', ['g3']), ('alice', ['g2']), ('dave', None)]
+
+
+def run_live(ctx, rng, idx, n_steps, cases, meta, defs):
+    plan = gen_plan(rng, rng.choice([6, 8, 10]))
+    for o in plan:
+        o['policy'] = rng.choice(['open', 'open', 'team', 'team', 'mixed', 'mixedrev', 'closed', 'partial', 'default'])
+        o['owner'] = rng.choice(['alice', 'bob'])
+    live = LiveStore(ctx, plan, str(idx))
+    store = live.store
+    try:
+        sname = 'store_%d' % idx
+        defs.append('Definition %s : list obj := %s.' % (sname, cp.lst(store.objs, obj_to_coq).replace('; (mkObj', ';\n   (mkObj')))
+        original = copy.deepcopy(live.history[0])
+        docs = original
+        for step in range(n_steps):
+            if step > 0:
+                docs = edit_documents(rng, docs, original, step)
+                live.load(docs)
+            pname = 'pols_%d_%d' % (idx, step)
+            defs.append('Definition %s : policies :=\n  %s.' % (pname, policies_to_coq(store.pols)))
+            ctx.count('live.policy_loads')
+            requests = [(rq, []) for rq in LIVE_REQUESTERS] + [(rq, gen_filters(rng, store, rq)) for rq in LIVE_REQUESTERS[:4]]
+            for req, fs in requests:
+                version = (1, 4) if any(f[0] == 'policy' for f in fs) else rng.choice([(1, 2), (1, 4), (2, 0)])
+                full_obs = run_locate(store, req, fs, None, None, version)
+                for (off, mx) in [(None, None), (1, 2)][:rng.choice([1, 2])]:
+                    obs = full_obs if off is None else run_locate(store, req, fs, off, mx, version)
+                    cases.append(case_to_coq(sname, req, fs, off, mx, obs, version, pols_name=pname))
+                    meta.append({'store': idx, 'plan': plan, 'requester': list(req), 'filters': fs, 'offset': off, 'maximum': mx,
+                                 'version': list(version), 'observed': obs, 'objs': store.objs, 'policy_step': step})
+                    ctx.case_seen((idx, step, req, fs, off, mx), nontrivial=True)
+                    ctx.count('live.locate.%s' % ('failed' if obs['ids'] is None else ('empty' if not obs['ids'] else 'nonempty')))
+                    oracle_check(ctx, store, req, fs, off, mx, version, obs, full_obs)
+                live.prior.append({'policy_step': step, 'requester': list(req), 'filters': fs, 'version': list(version)})
+                if full_obs['ids'] and rng.random() < 0.3:
+                    pages_check(ctx, store, req, fs, version, full_obs, 2)
+    finally:
+        live.close()
+
+
 MODEL_BRANCHES = ['Application Specific Information', 'Object Group', 'Name', 'State', 'Object Type', 'Cryptographic Algorithm',
                   'Cryptographic Length', 'Unique Identifier', 'Operation Policy Name', 'Cryptographic Usage Mask', 'Certificate Type',
                   'Sensitive', 'Initial Date']
@@ -1170,6 +1298,9 @@ def run(ctx):
         doctored = (idx % 9 == 7)
         plan = gen_plan(rng, n, epoch=epoch, doctored=doctored)
         run_store(ctx, rng, idx, plan, pols, n_requests, cases, meta, defs, epoch=epoch or doctored)
+    # live policy reload: ONE engine, the policy file rewritten and rescanned between Locates
+    for k in range(1 if quick else 6):
+        run_live(ctx, rng, 7000 + k, 6 if quick else 9, cases, meta, defs)
     # the size dimension: large stores with many objects per second, sizes around powers of ten and of two
     if quick:
         large = [rng.choice([99, 100, 101, 128, 129, 130]), rng.choice([255, 256, 257, 300])]
@@ -1244,8 +1375,8 @@ def shrink_first_violation(ctx):
     v = ctx.violations[0]
     w = v['witness']
     kind = v['signature'].get('kind')
-    if 'plan' not in w or kind is None:
-        return
+    if 'plan' not in w or kind is None or 'policy_history' in w:
+        return                      # (a live-reload witness is a history; it is replayed as recorded)
     plan, fs = list(w['plan']), list(w['filters'])
     req = (w['requester'][0], w['requester'][1])
     off, mx, version, ps = w.get('offset'), w.get('maximum'), tuple(w.get('version') or (1, 2)), w.get('page_size')
@@ -1296,6 +1427,39 @@ def shrink_first_violation(ctx):
         ctx.log('shrunk the first violation to %d objects, %d filters' % (len(plan), len(fs)))
 
 
+def replay_live(ctx, w):
+    """Re-run a live-reload history: same store plan, same sequence of policy files and of Locates."""
+    live = LiveStore(ctx, w['plan'], 'replay')
+    store = live.store
+    try:
+        hist = w['policy_history']
+        step = 0
+        for pr in w.get('prior_requests', []):
+            while step < pr['policy_step']:
+                step += 1
+                live.load(hist[step])
+            run_locate(store, tuple(pr['requester'][:1]) + (pr['requester'][1],), pr['filters'], None, None, pr['version'])
+        while step < len(hist) - 1:
+            step += 1
+            live.load(hist[step])
+        req = (w['requester'][0], w['requester'][1])
+        version = w.get('version') or (1, 2)
+        full = run_locate(store, req, w['filters'], None, None, version)
+        obs = full if (w.get('offset') is None and w.get('maximum') is None) else run_locate(store, req, w['filters'], w.get('offset'), w.get('maximum'), version)
+        print('policy file loads: %d; Locates before the failing one: %d' % (len(hist), len(w.get('prior_requests', []))))
+        print('request : requester=%r filters=%r offset=%r maximum=%r' % (req, w['filters'], w.get('offset'), w.get('maximum')))
+        print('observed:', obs)
+        print('expected:', sorted(oracle_expected(store, req, w['filters']) or []), '(under the policy documents in force at that time)')
+        oracle_check(ctx, store, req, w['filters'], w.get('offset'), w.get('maximum'), version, obs, full)
+    finally:
+        live.close()
+    if ctx.violations:
+        print('REPRODUCED:', ctx.violations[0]['what'])
+        return 1
+    print('not reproduced')
+    return 0
+
+
 def replay(ctx, payload):
     w = payload.get('input') or {}
     if 'plan' not in w:
@@ -1304,6 +1468,8 @@ def replay(ctx, payload):
             print('replay file names no concrete input')
             return 2
         w = cands[0]['case']
+    if 'policy_history' in w:
+        return replay_live(ctx, w)
     pols = build_policies(ctx)
     store = Store(ctx, w['plan'], pols)
     try:
